@@ -10,6 +10,20 @@ static const std::vector<const char*> names{"modify_detach", "modify_async", "sh
 template<class M>
 constexpr bool timedM = std::is_same_v<M, std::timed_mutex> || std::is_same_v<M, std::shared_timed_mutex>;
 
+// user functors are user types too: copying / moving one is user code (a step, event `fcopy`) when the execution runs with
+// fcopy=1, so that a copy made while the library holds one of its internal locks is observable
+struct FnTag {
+    int d;
+    explicit FnTag(int x): d(x) {}
+    FnTag(const FnTag& o): d(o.d) { hit(); }
+    FnTag(FnTag&& o) noexcept: d(o.d) { hit(); }
+    void hit() const
+    {
+        if (vrt::g_rt && vrt::scheduled() && vrt::g_rt->cfg.params.count("fcopy") && vrt::g_rt->cfg.params["fcopy"] != 0)
+            vrt::step_ev("fcopy", "fn", 0, d);
+    }
+};
+
 struct Fut {
     int digit;
     std::future<long> f;
@@ -54,7 +68,7 @@ static void run_mk(vrt::Exec& x)
                 auto rp = std::make_shared<long>(0);  // the functor may run later, in another thread
                 if (op == 0) {
                     try {
-                        A->modify_detach([digit, rp, tid](Cell& c) {
+                        A->modify_detach([digit, rp, tid, tag = FnTag(digit)](Cell& c) {
                             vrt::log_ev("task", "", digit);
                             c.mutate([digit](long v) { return vrt::upd(v, digit); });
                             if (vrt::cur_id() == tid) *rp = c.a;  // direct path: run by the submitter inside its call
@@ -66,7 +80,7 @@ static void run_mk(vrt::Exec& x)
                     }
                 } else if (op == 1) {
                     auto ran = std::make_shared<bool>(false);
-                    auto f = A->modify_async([digit, rp, tid, ran](Cell& c) -> long {
+                    auto f = A->modify_async([digit, rp, tid, ran, tag = FnTag(digit)](Cell& c) -> long {
                         vrt::log_ev("task", "", digit);
                         if (vrt::cur_id() == tid) *ran = true;
                         c.mutate([digit](long v) { return vrt::upd(v, digit); });
